@@ -364,7 +364,7 @@ def main():
         rep.bounded.append(dict(function='scared.signal_processing under /venv/bin/python (real numba, real scipy) vs naive references', bound=o['bound'], evaluations=o['evaluations'], distinct=o['evaluations'], exhaustive=o.get('exhaustive', False), failures=o['failures']))
         for f in o['failing'][:3]: rep.violation('bounded[native,%s]' % f.get('kind'), f.get('function', PK), f.get('detail', 'differs'), f, None, True, f)
     rep.assume('A1', 'A4', 'A6', 'T-pyvc')
-    rep.trust('scipy.signal.correlate(a, b, "valid")[k] == sum_t a[k+t] b[t] (assumed contract on the dependency; the native stand-in runs the real scipy)', 'numba.njit compiles _find_peaks_numba_core with the semantics of the Python source (the prover executes the Python source; the native stand-in runs the compiled function)')
+    rep.trust('ring normaliser (pyvc/polyid.py): sympy expand / together / polynomial remainder decide the rational-function identities', 'scipy.signal.correlate(a, b, "valid")[k] == sum_t a[k+t] b[t] (assumed contract on the dependency; the native stand-in runs the real scipy)', 'numba.njit compiles _find_peaks_numba_core with the semantics of the Python source (the prover executes the Python source; the native stand-in runs the compiled function)')
     rep.not_decided.append('array shapes are case-split (1-D lengths <= 5 quick / 7 thorough, four 2-D shapes, find_peaks / find_width lengths <= 5 / 7): sample values, thresholds, distances, widths, offsets and indexes are symbolic, lengths are not')
     rep.not_decided.append('floating-point rounding (A1): cumsum cancellation in moving_* on long arrays is outside the model')
     sys.exit(rep.finish('./check C19 --tier %s' % a.tier))
